@@ -574,6 +574,83 @@ fn one(sh: &mut Shard, script: Vec<Cmd>, cycles: usize, reference: &[u64], trace
     alive
 }
 
+// ------------------------------------------------------------------ part C: writes and forces act at cycle boundaries only
+
+/// A debugger write is applied at the start of the next cycle, a force at the start and at the end of every cycle while it is
+/// active, and at no other point.  Executable model: the *undebugged* runtime with the variable set through the harness at exactly
+/// those boundaries; everything in between is the real interpreter, so a force re-applied between tasks or a write applied
+/// mid-cycle shows as a different digest.
+fn part_c(sh: &mut Shard, rng: &mut Rng, trials: usize) {
+    use trust_runtime::value::Value;
+    for t in 0..trials {
+        let seed = rng.next();
+        let mut r = Rng::new(seed);
+        let cycles = 4 + r.usize(8);
+        // boundary b = before cycle b; commands: 0 = queued write, 1 = force, 2 = release
+        let mut cmds: Vec<(usize, u8, i32)> = (0..1 + r.usize(4)).map(|_| (r.usize(cycles), r.below(3) as u8, r.range(-5, 1000) as i32)).collect();
+        cmds.sort();
+        let case = json!({"part": "C", "cycles": cycles, "cmds": cmds});
+        if !sh.begin("write-force", &case) {
+            continue;
+        }
+        let cmds2 = cmds.clone();
+        let res = catch(move || -> Result<(Vec<u64>, Vec<u64>), String> {
+            let mut x = TestHarness::from_source(PROGRAM).map_err(|e| e.to_string())?;
+            let dbg = x.runtime_mut().enable_debug();
+            let mut m = TestHarness::from_source(PROGRAM).map_err(|e| e.to_string())?;
+            let (mut dx, mut dm) = (Vec::new(), Vec::new());
+            let mut forced: Option<i32> = None;
+            for c in 0..cycles {
+                for (_, k, v) in cmds2.iter().filter(|(b, _, _)| *b == c) {
+                    match k {
+                        0 => {
+                            dbg.enqueue_global_write("shared", Value::DInt(*v));
+                            m.set_input("shared", Value::DInt(*v));
+                        }
+                        1 => {
+                            dbg.force_global("shared", Value::DInt(*v));
+                            forced = Some(*v);
+                        }
+                        _ => {
+                            dbg.release_global("shared");
+                            forced = None;
+                        }
+                    }
+                }
+                // model: a force holds at the start of the cycle (after queued writes) ...
+                if let Some(v) = forced {
+                    m.set_input("shared", Value::DInt(v));
+                }
+                x.advance_time(Duration::from_millis(1));
+                m.advance_time(Duration::from_millis(1));
+                let rx = x.cycle();
+                let rm = m.cycle();
+                // ... and at its end
+                if let Some(v) = forced {
+                    m.set_input("shared", Value::DInt(v));
+                }
+                dx.push(fnv(&(walk::snapshot(x.runtime().storage()), format!("{:?}", rx.errors))));
+                dm.push(fnv(&(walk::snapshot(m.runtime().storage()), format!("{:?}", rm.errors))));
+            }
+            Ok((dx, dm))
+        });
+        match res {
+            Err(p) => sh.violation(format!("panic|{}", panic_sig(&p)), p, case.clone()),
+            Ok(Err(e)) => sh.inconclusive(e),
+            Ok(Ok((dx, dm))) => {
+                sh.count("write_force_cycles_compared_with_boundary_model", dx.len() as u64);
+                if let Some(at) = dx.iter().zip(dm.iter()).position(|(a, b)| a != b) {
+                    sh.violation("write-force|not-at-cycle-boundary", format!("cycle {at}: the state under debugger writes/forces {cmds:?} differs from the undebugged runtime with the same values set at the cycle boundaries only"), case.clone());
+                } else if t < 3 && sh.want_sample() {
+                    sh.sample(case.clone());
+                }
+                sh.nontrivial(&("C", seed));
+            }
+        }
+        sh.end();
+    }
+}
+
 extern "C" {
     fn dup2(oldfd: i32, newfd: i32) -> i32;
 }
@@ -628,6 +705,7 @@ pub fn run(sh: &mut Shard) {
         return;
     }
     let rng = Rng::new(sh.args.shard_seed());
+    part_c(sh, &mut rng.fork(777), if sh.args.thorough() { 3000 } else { 300 });
     let mut i = 0u64;
     while sh.time_left() {
         i += 1;
